@@ -706,3 +706,90 @@ func runVestingScenarios(seed int64, cw *CaseWriter, rep *lib.Report, r *lib.Ran
 		finish(h, rep, "scenario-vesting-"+mode)
 	}
 }
+
+// runLongGov: governance has raised its own periods (real MsgUpdateParams) to 30 / 21 days; participants of
+// proposals whose end is weeks away try to migrate at several points of the period.
+func runLongGov(seed int64, cw *CaseWriter, rep *lib.Report, r *lib.Rand) {
+	h := NewHist(seed*1000+970, cw, rep)
+	h.setupBasic()
+	h.Exec(Op{Kind: "govparams", D1: 30 * day, D2: 21 * day})
+	h.Exec(Op{Kind: "delegate", A: 0, V: val0, Amt: fx(1000)})
+	h.Exec(Op{Kind: "block", Dt: 5 * sec})
+	p1 := uint64(h.snap().NextPid)
+	h.Exec(Op{Kind: "submit", A: 0, Amt: fx(1000)})     // deposit period, ends in 30 days; source 0 proposer
+	h.Exec(Op{Kind: "submit", A: oth0, Amt: fx(10000)}) // voting period, ends in 21 days
+	h.Exec(Op{Kind: "deposit", A: 1, Pid: p1 + 1, Amt: fx(300)})
+	h.Exec(Op{Kind: "vote", A: 2, Pid: p1 + 1})
+	h.Exec(Op{Kind: "deposit", A: tgt0 + 3, Pid: p1, Amt: fx(200)})
+	h.Exec(Op{Kind: "vote", A: tgt0 + 3, Pid: p1 + 1})
+	for _, dt := range []int64{5 * sec, day + int64(r.Intn(3*int(day/sec)))*sec, 8 * day} {
+		h.Exec(Op{Kind: "block", Dt: dt})
+		h.Exec(mig(0, tgt0, "tx"))    // proposer, deposit period
+		h.Exec(mig(1, tgt0+1, "tx"))  // depositor, voting period
+		h.Exec(mig(2, tgt0+2, "tx"))  // voter
+		h.Exec(mig(3, tgt0+3, "tx"))  // the target deposited and voted
+		h.Exec(mig(3, tgt0+2, "srv")) // uninvolved pair
+	}
+	h.Exec(Op{Kind: "block", Dt: 13 * day}) // the voting period has ended, the deposit period has not
+	h.Exec(mig(1, tgt0+1, "tx"))
+	h.Exec(mig(0, tgt0, "tx"))
+	h.Exec(Op{Kind: "block", Dt: 10 * day})
+	h.Exec(mig(0, tgt0, "tx"))
+	h.Exec(Op{Kind: "block", Dt: 5 * sec})
+	finish(h, rep, "scenario-long-gov-periods")
+}
+
+// runScale: more than a hundred open proposals in each gov queue; the migrating accounts take part in the LAST ones
+func runScale(seed int64, cw *CaseWriter, rep *lib.Report, r *lib.Rand, n int) {
+	h := NewHist(seed*1000+975, cw, rep)
+	h.quiet = true
+	h.setupBasic()
+	h.Exec(Op{Kind: "mint", A: oth0, Denom: "FX", Amt: fx(int64(n) * 10200)})
+	h.Exec(Op{Kind: "mint", A: 2, Denom: "FX", Amt: fx(20000)})
+	h.Exec(Op{Kind: "block", Dt: 5 * sec})
+	first := uint64(h.snap().NextPid)
+	for i := 0; i < n; i++ {
+		h.Exec(Op{Kind: "submit", A: oth0, Amt: fx(100)}) // deposit period
+	}
+	h.Exec(Op{Kind: "submit", A: 0, Amt: fx(100)}) // source 0 proposes the last but one
+	lastDep := first + uint64(n) + 1
+	h.Exec(Op{Kind: "submit", A: oth0, Amt: fx(100)})
+	h.Exec(Op{Kind: "deposit", A: 1, Pid: lastDep, Amt: fx(150)}) // source 1 deposits on the very last
+	for i := 0; i < n; i++ {
+		h.Exec(Op{Kind: "submit", A: oth0, Amt: fx(10000)}) // voting period
+	}
+	h.Exec(Op{Kind: "submit", A: 2, Amt: fx(10000)}) // source 2 proposes a late one
+	lastVote := lastDep + uint64(n) + 2
+	h.Exec(Op{Kind: "submit", A: oth0, Amt: fx(10000)})
+	h.Exec(Op{Kind: "vote", A: tgt0 + 3, Pid: lastVote})       // a target votes on the very last
+	h.Exec(Op{Kind: "vote", A: 3, Pid: first + uint64(n) + 2}) // and source 3 on the first voting proposal, for contrast
+	h.Exec(Op{Kind: "block", Dt: 5 * sec})
+	h.Exec(mig(0, tgt0, "tx"))
+	h.Exec(mig(1, tgt0+1, "tx"))
+	h.Exec(mig(2, tgt0+2, "tx"))
+	h.Exec(mig(1, tgt0+3, "srv")) // wait: source 1 is a depositor AND the target a voter
+	h.Exec(mig(3, tgt0+2, "tx"))
+	rep.Count(fmt.Sprintf("scale:open-proposals=%d", len(h.snap().Props)))
+	finish(h, rep, "scenario-scale")
+}
+
+// runExportImport: migrations, then the chain is restarted from its exported genesis (real export, fresh app,
+// real InitChain); addresses used before must still be refused
+func runExportImport(seed int64, cw *CaseWriter, rep *lib.Report, r *lib.Rand) {
+	h := NewHist(seed*1000+978, cw, rep)
+	h.setupBasic()
+	h.Exec(Op{Kind: "delegate", A: 0, V: val0, Amt: fx(1000)})
+	h.Exec(Op{Kind: "block", Dt: 5 * sec})
+	h.Exec(Op{Kind: "undelegate", A: 0, V: val0, Amt: fx(100)})
+	h.Exec(Op{Kind: "block", Dt: 5 * sec})
+	h.Exec(mig(0, tgt0, "tx"))   // with staking records
+	h.Exec(mig(2, tgt0+2, "tx")) // balances only
+	h.Exec(Op{Kind: "block", Dt: 5 * sec})
+	h.Exec(Op{Kind: "block", Dt: 5 * sec})
+	h.Exec(Op{Kind: "exportimport"})
+	h.Exec(mig(1, tgt0+2, "tx")) // a used target
+	h.Exec(mig(2, tgt0+3, "tx")) // a used source
+	h.Exec(mig(1, tgt0, "srv"))  // a used target that now has staking records: refused for that reason
+	h.Exec(mig(3, tgt0+1, "tx")) // an unrelated pair
+	finish(h, rep, "scenario-export-import")
+}
